@@ -5,6 +5,36 @@ ROOT = os.path.dirname(os.path.dirname(os.path.abspath(__file__)))
 
 # id -> (built, engine, technique, level text, level note, design ref)
 P = {
+ "C01": (True, "progbatch",
+         "grammar-based program generation + differential PBT: generated traits compiled against the tree, proptest call sequences through opaque objects vs direct calls on a twin implementor",
+         "A seeded grammar generates batches of cglue traits (5 receiver kinds x 14 argument shapes x 12 return shapes incl. int_result and wrapped associated objects/groups, extern \"C\"/unsafe methods) with stateful implementors; each batch is compiled against /repo's current tree and every admissible container kind (boxed, CBox, &mut, &, CArcSome; without context, with CArc and with a counting context) is driven by generated call sequences. After every call returns, event logs (method id + argument digest), state hash chain and instance id are compared with direct calls on a twin. Exploration over a large but finite grammar.",
+         "generated implementor driven directly is the reference; definitions rejected by rustc on the current tree are counted as compile_rejected",
+         "DESIGN.md 4/C01"),
+ "C02": (True, "progbatch",
+         "same generated programs; absolute value/address oracles inside the implementor and the caller",
+         "For every wrapped shape in every argument/return position the grammar admits: the implementor digests what it received and records (address,len) of every reference-like argument, lends borrowed returns from known buffers, writes patterns through &mut / &mut [T]; the caller compares with what it sent, with the direct call's result, with the lent address and with its own buffers; values are biased to the corners (empty, zero-sized elements, non-ASCII, None/Some, Ok/Err, extreme integers, NaN payloads).",
+         "digest collisions (64-bit FNV) are ignored",
+         "DESIGN.md 4/C02"),
+ "C06": (True, "rtprops+progbatch",
+         "stateful PBT over object-pool histories of a hand-written trait family + lifecycle oracle on generated programs; drop tokens and tracking allocator",
+         "Histories {create object/group, call, owned/borrowed wrapped children, Clone via group, cast+upcast, into(final), consuming calls, drop in generated order} over a three-level family whose every value owns a heap token, plus the generated program batches with the lifecycle oracle: each token dropped exactly once, by-reference containers never drop what they borrow, allocation window balanced with matching layouts.",
+         "tracking allocator + token registry of the harness; Miri is not used (it rejects cglue's type erasure itself)",
+         "DESIGN.md 4/C06"),
+ "C07": (True, "rtprops+progbatch",
+         "stateful PBT with a reference-count model checked after every step; backtrace oracle for consuming calls on the last holder",
+         "Same histories: after every step Weak::strong_count == harness reference + live objects carrying the context, back to the start value after all drops in every generated drop order; dedicated histories end with a consuming call on the object holding the last context reference, whose payload Drop captures a backtrace that must not contain the C-side wrapper frame. Generated batches check the same count on CArc and counting contexts. The known ret_tmp leak is modelled (+1 per borrowed wrapped return) and counted.",
+         "unstripped debug build for frame names",
+         "DESIGN.md 4/C07"),
+ "C08": (True, "c08cells",
+         "exhaustive enumeration of a finite matrix by a generated crate (degenerate PBT: every input is generated)",
+         "All cells (n in 1..4 optional traits incl. two aliased instantiations of a generic trait, 0..2 mandatory traits) x (2^n enabled sets) x (2^n-1 requested sets) x {check, as_ref, as_mut, cast+upcast, into} x {Box, &mut, &, Box+CArc context}: success iff requested is a subset of enabled; after success every mandatory and requested method reaches the same instance in the right slot with the right argument; cast+upcast preserves the whole check matrix; drops and context count exact. 17k cells, exhaustive.",
+         "enumeration bound n <= 4",
+         "DESIGN.md 4/C08"),
+ "C09": (True, "c09markers",
+         "exhaustive enumeration of generated type expressions; marker booleans computed with the inherent-const-shadows-trait-const trick",
+         "Every opaque-conversion rule (references, CBox, CSliceBox, CArc, CArcSome, Fwd, containers, generated objects, groups, group containers; with and without context) x payloads {Send,!Send}x{Sync,!Sync} x {Send,Sync}: convertible and marker(opaque form) implies marker(instance handle). Finite matrix, exhaustive. 11 (handle, marker) cells fail on the pinned tree and are listed as known findings; any other failing cell is a violation.",
+         "stated target types are compared with type_name of the real OpaqueTarget",
+         "DESIGN.md 4/C09"),
  "C10": (True, "rtprops",
          "stateful PBT (proptest op histories over a handle pool vs a multiset model); threaded variant checked at quiescence",
          "Generated histories over {from value/Arc/Option<Arc>, clone, take, transpose, into_opaque, into_arc, deref, drop} on pools of CArc/CArcSome/opaque/Arc handles; after every step Weak::strong_count equals the number of live handles, the payload token is dropped exactly when the last handle goes, addresses/values agree and clone/drop function pointers equal those of the originating handle. 2-8 threads run generated sub-histories with handles re-dealt at barriers. Exploration only; interleavings are sampled, not owned.",
@@ -20,9 +50,9 @@ P = {
          "Slices of four element types at every length 0..=64 and random larger ones are round-tripped through every CSliceRef/CSliceMut conversion (address, length, contents, writes landing in the original buffer); the &str decision is compared with an independent UTF-8 validator on ALL byte strings up to length 2 (quick) / 3 (thorough) and on a boundary alphabet up to length 4/5, plus random damaged text; COption/CResult/CTup conversions are checked for variant, payload identity and exactly-once drops.",
          "hand-written RFC 3629 validator (cross-checked against std on every input; disagreement aborts as inconclusive)",
          "DESIGN.md 4/C12"),
- "C13": (True, "rtprops",
+ "C13": (True, "rtprops+progbatch",
          "PBT over the product of result shapes with poisoned output slots and drop tokens; sweep of i32 OS codes",
-         "Library half: every combination of payload {(), u64, droppable} x error {io raw code, io non-OS, (), fmt::Error, user IntError} x Ok/Err x both APIs with edge codes, then random; 300k (quick) / 5M (thorough) distinct OS codes through encode->decode. Oracle: 0 iff Ok, slot written exactly on Ok (token identity), byte-identical poison on Err, no read of the slot when decoding a failure, no shipped error encodes to 0, non-zero OS codes survive. The generated-code half (int_result trait methods end to end) is part of the program-batch engine.",
+         "Library half (rtprops): every combination of payload {(), u64, droppable} x error {io raw code, io non-OS, (), fmt::Error, user IntError} x Ok/Err x both APIs with edge codes, then random; 300k (quick) / 5M (thorough) distinct OS codes through encode->decode. Oracle: 0 iff Ok, slot written exactly on Ok (token identity), byte-identical poison on Err, no read of the slot when decoding a failure, no shipped error encodes to 0, non-zero OS codes survive. Generated half (progbatch): int_result productions of the grammar end to end, decoded Result compared with the direct call.",
          "output slot poison pattern 0xA7; token registry",
          "DESIGN.md 4/C13"),
  "C14": (True, "rtprops",
@@ -87,6 +117,9 @@ def main():
 
 NA = {}
 ENGINES = [
+ {"name": "progbatch", "path": "driver/gen.py, driver/emit.py, driver/batch.py, harness/pbsupport", "serves_properties": ["C01","C02","C06","C07","C13"], "kind_free_text": "grammar-based generator of cglue traits + stateful implementors + differential drivers, compiled per batch against /repo"},
+ {"name": "c08cells", "path": "driver/gen_c08.py", "serves_properties": ["C08"], "kind_free_text": "generated crate enumerating the cast matrix"},
+ {"name": "c09markers", "path": "driver/gen_c09.py", "serves_properties": ["C09"], "kind_free_text": "generated crate evaluating the Send/Sync matrix"},
  {"name": "verifkit", "path": "harness/verifkit", "serves_properties": [], "kind_free_text": "tracking global allocator, drop tokens, proptest runner with fixed seeds, statistics, replay protocol"},
  {"name": "rtprops", "path": "harness/rtprops", "serves_properties": ["C10","C11","C12","C13","C14","C15","C16","C19"], "kind_free_text": "proptest histories against std models for the runtime types"},
  {"name": "check", "path": "check", "serves_properties": [], "kind_free_text": "python driver: build, run, known-findings protocol, evidence"},
